@@ -67,6 +67,8 @@ type appSpec struct {
 	ConnsR      int               `json:"receiver_connections"`
 	RLat        []int             `json:"receiver_address_latency_ms"` // one per receiver address (one-way, both directions)
 	SLat        []int             `json:"sender_address_latency_ms"`
+	RDead       []bool            `json:"receiver_address_unreachable,omitempty"` // addresses the receiver offers but the sender cannot reach (another network)
+	RMaxStreams int               `json:"receiver_quic_max_incoming_streams,omitempty"` // thru join --quic-max-incoming-streams (0 = default 100)
 	MLat        int               `json:"attacker_latency_ms"`
 	MDelayMs    int               `json:"attacker_delay_ms"`
 }
@@ -145,6 +147,15 @@ func (h appHarness) Gen(r *verifsim.SplitMix, tier string, idx int) any {
 		}
 		sp.RLat = distinct(2 + r.Intn(2))
 		sp.SLat = distinct(1 + r.Intn(2))
+		// some of the addresses a host offers are not reachable from the other side (a LAN
+		// address offered to a peer elsewhere); at least one is
+		sp.RDead = make([]bool, len(sp.RLat))
+		if r.Chance(1, 2) {
+			live := r.Intn(len(sp.RLat))
+			for i := range sp.RDead {
+				sp.RDead[i] = i != live && r.Chance(2, 3)
+			}
+		}
 		if r.Chance(1, 3) {
 			sp.ConnsS, sp.ConnsR = 2, 2+r.Intn(2)
 		}
@@ -152,6 +163,9 @@ func (h appHarness) Gen(r *verifsim.SplitMix, tier string, idx int) any {
 		sp.Scenario = "honest"
 		if r.Chance(1, 2) {
 			sp.ConnsS, sp.ConnsR = 1+r.Intn(3), 1+r.Intn(4)
+		}
+		if r.Chance(1, 4) {
+			sp.RMaxStreams = []int{2, 3, 4, 8}[r.Intn(4)]
 		}
 	}
 	return sp
@@ -328,6 +342,12 @@ func (h appHarness) Run(spec any) (res verifsim.RunResult) {
 	var mEngineErr string
 	var mEngineRan bool
 	var mRecs []*mConnRec
+	type sLink struct {
+		o *verifsim.UDPSock
+		p *verifsim.UDPPath
+	}
+	var sToR []sLink // every path from a socket of the sender to an address of the receiver
+	var sSocks []*verifsim.UDPSock
 	var rExitAt, endAt time.Duration
 	attacked := strings.HasPrefix(sp.Scenario, "rogue")
 	var outcome verifsim.Outcome
@@ -335,6 +355,8 @@ func (h appHarness) Run(spec any) (res verifsim.RunResult) {
 	var rExited bool
 	var simElapsed time.Duration
 
+	verifsim.RecoverPanics, verifsim.ExitedStayDead = true, true
+	defer func() { verifsim.RecoverPanics, verifsim.ExitedStayDead = false, false }()
 	s, bubblePanic := runWorld(sp.Seed, sp.Strat, 65536, flags, false, func(w *world) {
 		start := time.Now()
 		stopPool := transfer.VerifResetReadPool(2)
@@ -380,7 +402,7 @@ func (h appHarness) Run(spec any) (res verifsim.RunResult) {
 		diverted := map[*verifsim.UDPSock]bool{} // sender sockets whose packets for the receiver's addresses reach the attacker
 		link := func(ho *appHost, o *verifsim.UDPSock, ht *appHost, t *verifsim.UDPSock) {
 			tport := t.LocalAddr().(*net.UDPAddr).Port
-			for _, ip := range ht.ips {
+			for ipIdx, ip := range ht.ips {
 				l := latOf(ht, ip)
 				if ho.name == "M" {
 					l = time.Duration(sp.MLat) * time.Millisecond
@@ -389,7 +411,14 @@ func (h appHarness) Run(spec any) (res verifsim.RunResult) {
 				if ho.name == "S" && ht.name == "R" && diverted[o] && mSock != nil {
 					target, l = mSock, time.Duration(sp.MLat)*time.Millisecond
 				}
-				unet.AddPath(o, target, &verifsim.UDPPath{Alias: &net.UDPAddr{IP: ip, Port: tport}, Up: l, Down: l})
+				pth := &verifsim.UDPPath{Alias: &net.UDPAddr{IP: ip, Port: tport}, Up: l, Down: l}
+				if ho.name == "S" && ht.name == "R" && ipIdx < len(sp.RDead) && sp.RDead[ipIdx] {
+					pth.Blackhole = true
+				}
+				unet.AddPath(o, target, pth)
+				if ho.name == "S" && ht.name == "R" {
+					sToR = append(sToR, sLink{o, pth})
+				}
 			}
 		}
 		connect := func(hx *appHost, x *verifsim.UDPSock) {
@@ -783,6 +812,7 @@ func (h appHarness) Run(spec any) (res verifsim.RunResult) {
 		verifsim.Go("R", func() {
 			err := app.RunSnapshotReceiver(ctxR, logger, app.SnapshotReceiverConfig{
 				ServerURL: srvURL, JoinCode: joinCode, OutDir: out, ParallelConnections: sp.ConnsR, StunServers: []string{"10.9.9.9:3478"},
+				QuicMaxIncomingStreams: sp.RMaxStreams,
 			})
 			mu.Lock()
 			rErr, rRet = err, true
@@ -809,6 +839,9 @@ func (h appHarness) Run(spec any) (res verifsim.RunResult) {
 		mu.Lock()
 		endAt = simElapsed
 		mu.Unlock()
+		netMu.Lock()
+		sSocks = append(sSocks, hosts["S"].socks...)
+		netMu.Unlock()
 		cancelM()
 		cancelS()
 		cancelR()
@@ -824,6 +857,11 @@ func (h appHarness) Run(spec any) (res verifsim.RunResult) {
 	_ = rErr
 	if bubblePanic != "" && !strings.Contains(bubblePanic, "deadlock: main bubble goroutine has exited") {
 		addV("panic", "app-bubble:"+firstLineSrv(bubblePanic), bubblePanic)
+	}
+	if s != nil {
+		for node, msg := range s.Panics {
+			addV("process-panic", node+":"+firstLineSrv(msg), fmt.Sprintf("the %s process panicked: %s", node, msg))
+		}
 	}
 	// ---- judgement ----
 	want := map[string]string{}
@@ -893,6 +931,26 @@ func (h appHarness) Run(spec any) (res verifsim.RunResult) {
 			}
 			if rec.closedAt < 0 && limit-rec.proofAt > grace || rec.closedAt >= 0 && rec.closedAt-rec.proofAt > grace {
 				addV("unauthenticated-connection-kept", sp.Scenario+":"+sp.Attack, fmt.Sprintf("scenario %s, attacker %s: the attacker's connection (opened %v into the run, worthless proof or none at %v) was still held open by the honest side %v after that (closed at: %v; -1 = never)", sp.Scenario, sp.Attack, rec.openedAt.Round(time.Millisecond), rec.proofAt.Round(time.Millisecond), grace, rec.closedAt))
+			}
+		}
+	}
+	// 1c. every connection the sender dials goes where the receiver is: a socket of the
+	// sender that sent datagrams towards the receiver's addresses got some of them through
+	// (the extra connections follow the connection that won the race)
+	if sp.Scenario == "multipath" {
+		for i, so := range sSocks {
+			sent, through := 0, 0
+			for _, l := range sToR {
+				if l.o == so {
+					sent += l.p.Delivered + l.p.Dropped
+					through += l.p.Delivered
+				}
+			}
+			if sent > 0 {
+				res.Counters["sender_sockets_that_dialled"]++
+			}
+			if sent > 0 && through == 0 {
+				addV("connection-dialled-where-the-receiver-is-not", "app:multipath", fmt.Sprintf("socket %d of the sender sent %d datagrams to addresses of the receiver and none arrived: it dialled only addresses that do not reach the receiver (offered: latencies %v ms, unreachable %v) although the primary connection had found one that does", i, sent, sp.RLat, sp.RDead))
 			}
 		}
 	}
